@@ -611,6 +611,39 @@ func c11Harnesses(c *sup.Ctx) []c11Harness {
 		c11QueryHarness("invalid rule, 2 matches", []refdl.Atom{p0, p1}, rule(atom("h", Y), atom("p", X))),
 		c11QueryHarness("expression error on the second match", []refdl.Atom{p1, atom("p", rx.Str("a"))}, refdl.Rule{Head: atom("h", X), Body: []refdl.Atom{atom("p", X)}, Exprs: [][]rx.Op{binExpr(X, rx.LessThan, rx.Int(5))}}),
 	)
+	// every way a producer's matches can end: each match is valid (V), filtered out by a false expression (F) or
+	// raises an expression error (E), in every order up to three matches, for a well-formed rule and for one
+	// whose head variable is unbound (the consumer stops listening at the first match it sees)
+	kinds := [3][3]rx.Val{{rx.Int(1), rx.Int(2), rx.Int(3)}, {rx.Int(7), rx.Int(8), rx.Int(9)}, {rx.Str("a"), rx.Str("b"), rx.Str("c")}}
+	for n := 1; n <= 3; n++ {
+		total := 1
+		for i := 0; i < n; i++ {
+			total *= 3
+		}
+		for code := 0; code < total; code++ {
+			var facts []refdl.Atom
+			label, hasE, c := "", false, code
+			for i := 0; i < n; i++ {
+				k := c % 3
+				c /= 3
+				facts = append(facts, atom("p", kinds[k][i]))
+				label += string("VFE"[k])
+				hasE = hasE || k == 2
+			}
+			lt5 := [][]rx.Op{binExpr(X, rx.LessThan, rx.Int(5))}
+			valid := refdl.Rule{Head: atom("h", X), Body: []refdl.Atom{atom("p", X)}, Exprs: lt5}
+			invalid := refdl.Rule{Head: atom("h", Y), Body: []refdl.Atom{atom("p", X)}, Exprs: lt5}
+			hs = append(hs,
+				c11QueryHarness("matches "+label+", well-formed rule", facts, valid),
+				c11QueryHarness("matches "+label+", unbound head variable", facts, invalid))
+			if n >= 2 {
+				hs = append(hs, c11RunHarness(mkProg("matches-"+label+"-unbound-head", facts, invalid), 1000, 100))
+				if hasE {
+					hs = append(hs, c11RunHarness(mkProg("matches-"+label+"-well-formed", facts, valid), 1000, 100))
+				}
+			}
+		}
+	}
 	tiny := refdl.Scenario{Authority: refdl.Block{Facts: []refdl.Atom{fRightR}}, Auth: refdl.Block{Facts: []refdl.Atom{fOpRead}}, Policies: []refdl.Policy{allow(q(fRightR))}}
 	withBlock := refdl.Scenario{Authority: refdl.Block{Facts: []refdl.Atom{fResF}, Rules: []refdl.Rule{rAllowed}}, Blocks: []refdl.Block{{Facts: []refdl.Atom{fResG}, Rules: []refdl.Rule{rAllowed}, Checks: []refdl.Check{chk(q(atom("allowed", sG)))}}}, Auth: refdl.Block{Facts: []refdl.Atom{fOpRead}}, Policies: []refdl.Policy{allow(q(fAllowedF))}}
 	invalidInCheck := refdl.Scenario{Authority: refdl.Block{Facts: []refdl.Atom{fResF, fResG}}, Auth: refdl.Block{Checks: []refdl.Check{chk(q(fResF))}}, Policies: []refdl.Policy{allow(qTrue)}}
